@@ -75,6 +75,7 @@ class ESRun:
                         automatic_extend_split=auto, split_single_dim=single)
         if margin is not None:
             self.combi.margin = margin
+        self.margin_req = 0.9 if margin is None else float(margin)
 
         class ScriptedError(EC):
             def calc_error(self, refine_object, norm, volume_weights=None):
@@ -196,15 +197,15 @@ def strip(ev):
 
 
 def trace_cfg(run):
-    m = Fraction(run.combi.margin).limit_denominator(1000)
+    m = Fraction(run.margin_req).limit_denominator(1000)
     return {'D': run.D, 'lmin': run.lmin, 'lmax': run.lmax0, 'version': run.cfg['version'], 'nrbe': run.cfg['nrbe'] + 1, 'lat': LAT,
             'mnum': m.numerator, 'mden': m.denominator, 'ispec': not (run.cfg['auto'] or run.cfg['single'])}
 
 
 def benefits_for(run, sel, rng):
     n = len(run.leaves())
-    m = Fraction(run.combi.margin).limit_denominator(1000)
-    mf = float(run.combi.margin)
+    m = Fraction(run.margin_req).limit_denominator(1000)
+    mf = float(run.margin_req)
     lo = [b for b in range(0, 11) if b * m.denominator < m.numerator * 10 and not (b >= 10 * mf)] or [0]
     return [10 if i in sel else rng.choice(lo) for i in range(n)]
 
